@@ -157,6 +157,13 @@ class State:
         self.store_n = 0
         self.locks_held = ()
         self.notes = []
+        self.frozen = frozenset()
+
+    def mutating(self, ref):
+        """called before a concrete-shaped container is mutated or interned"""
+        if ref.id in self.frozen:
+            raise Unsupported('a concrete-shaped container created before a cut loop is mutated inside it: '
+                              'give the variable a heap type hint (local_types) in the sidecar')
 
     def copy(self):
         s = State.__new__(State)
@@ -171,6 +178,7 @@ class State:
         s.alloc_base, s.alloc_n, s.store_n = self.alloc_base, self.alloc_n, self.store_n
         s.locks_held = self.locks_held
         s.notes = list(self.notes)
+        s.frozen = self.frozen
         return s
 
     # environments: frames addressed by id so closures survive forks
@@ -244,9 +252,11 @@ class LoopSpec:
     .entry (state at loop entry).  modifies: names / ('heap', cls, field) /
     ('ghost', name)."""
 
-    def __init__(self, inv, modifies=(), decreases=None, name=None, unroll=False):
+    def __init__(self, inv, modifies=(), decreases=None, name=None, unroll=False, tag='top', types=None):
         self.inv, self.modifies, self.decreases, self.name = inv, tuple(modifies), decreases, name
         self.unroll = unroll
+        self.tag = tag
+        self.types = types or {}
 
 
 class LoopCtx:
@@ -278,10 +288,12 @@ OUT_NORMAL = ('normal',)
 
 
 class Interp:
-    FEAS_TIMEOUT_MS = 2000
+    FEAS_TIMEOUT_MS = 300
 
-    def __init__(self, unit_name='unit', loops=None, contextmanager=False, drop=None, max_paths=4000):
+    def __init__(self, unit_name='unit', loops=None, contextmanager=False, drop=None, max_paths=4000,
+                 local_types=None):
         self.unit_name = unit_name
+        self.local_types = local_types or {}
         self.loops = loops or {}
         self.loop_nodes = {}
         self.obligations = []
@@ -320,7 +332,11 @@ class Interp:
         if self.feasible(b):
             yield b, False
 
-    def oblige(self, st, name, goal, tag='top', meta=None):
+    def oblige(self, st, name, goal, tag='top', meta=None, split=False):
+        if split and z3.is_and(goal) and goal.num_args() > 1:
+            for j, c in enumerate(goal.children()):
+                self.obligations.append(Obligation(f'{self.unit_name}.{name}/{j}', st.pc, c, tag, meta))
+            return
         self.obligations.append(Obligation(f'{self.unit_name}.{name}', st.pc, goal, tag, meta))
 
     # truthiness ---------------------------------------------------------
@@ -355,10 +371,12 @@ class Interp:
                     return st.heap.read(t.cls, 'len', v.z) > 0
                 if kind == 'set':
                     m = st.heap.read(t.cls, 'm', v.z)
-                    return m != z3.K(t.cls.elem.sort(), z3.BoolVal(False))
+                    x = z3.Const(sym.fresh_name('w'), t.cls.elem.sort())
+                    return z3.Exists([x], z3.Select(m, x))
                 if kind == 'dict':
                     m = st.heap.read(t.cls, 'has', v.z)
-                    return m != z3.K(t.cls.kt.sort(), z3.BoolVal(False))
+                    x = z3.Const(sym.fresh_name('w'), t.cls.kt.sort())
+                    return z3.Exists([x], z3.Select(m, x))
                 return z3.BoolVal(True)
             if isinstance(t, sym.Opaque):
                 tr = getattr(t, 'truth', None)
@@ -945,6 +963,10 @@ class Interp:
     def assign_target_gen(self, st, target, v):
         from . import ops
         if isinstance(target, ast.Name):
+            hint = self.local_types.get(target.id)
+            if hint is not None and not isinstance(v, SV):
+                from . import ops as _ops
+                v = _ops.to_ty(self, st, v, hint)
             st.assign(target.id, v)
             yield st, OUT_NORMAL
         elif isinstance(target, (ast.Tuple, ast.List)):
@@ -1195,14 +1217,21 @@ class Interp:
             st.assume(a)
             entry.assume(a)
         # 1. invariant holds on entry
-        self.oblige(st, f'{name}.inv_entry', spec.inv(LoopCtx(st, k0, n, elem, entry, self)), tag='helper')
+        self.oblige(st, f'{name}.inv_entry', spec.inv(LoopCtx(st, k0, n, elem, entry, self)), tag=spec.tag, split=True)
         # 2. arbitrary iteration
         body_st = st.copy()
         k = z3.Int(sym.fresh_name('k'))
+        outer_frozen = st.frozen
+        body_st.frozen = frozenset(body_st.store.keys()) | outer_frozen
+        body_st.emit('loop_body', loop=name)
         self.havoc(body_st, node, spec)
         body_st.assume(k >= 0)
         body_st.assume(spec.inv(LoopCtx(body_st, k, n, elem, entry, self)))
         exit_st = body_st.copy()
+        exit_st.frozen = outer_frozen
+        self._frame_base = {(m[1].name, m[2]): (body_st.heap.arr(m[1], m[2]), [body_st.lookup(nm).z for nm in m[3]])
+                            for m in spec.modifies if isinstance(m, tuple) and m[0] == 'heap_at'}
+        exit_st.events[-1] = Event('loop_exit', loop=name, pc_len=len(exit_st.pc), locks=exit_st.locks_held)
         heap_before = set(body_st.heap.written)
         body_st.heap.written = set()
         ghost_before = dict(body_st.ghost)
@@ -1228,7 +1257,7 @@ class Interp:
                 self.check_frame(s, spec, name, ghost_before)
                 if out[0] in ('normal', 'continue'):
                     self.oblige(s, f'{name}.inv_preserved',
-                                spec.inv(LoopCtx(s, k + 1, n, elem, entry, self)), tag='helper')
+                                spec.inv(LoopCtx(s, k + 1, n, elem, entry, self)), tag=spec.tag, split=True)
                     if dec0 is not None:
                         dec1 = spec.decreases(LoopCtx(s, k + 1, n, elem, entry, self))
                         self.oblige(s, f'{name}.decreases', z3.And(dec1 < dec0, dec0 >= 0), tag='top')
@@ -1283,7 +1312,7 @@ class Interp:
             elif isinstance(v, (int, float, str, bytes, bool)) and not isinstance(v, type(None)):
                 st.assign(nm, sym.fresh(lift(v).ty, nm))
             elif v is None:
-                hint = getattr(spec, 'types', {}).get(nm) if hasattr(spec, 'types') else None
+                hint = spec.types.get(nm)
                 if hint is None:
                     raise Unsupported(f'havoc of None-initialised {nm}: add a type hint')
                 st.assign(nm, sym.fresh(hint, nm))
@@ -1293,6 +1322,14 @@ class Interp:
         for m in spec.modifies:
             if isinstance(m, tuple) and m[0] == 'heap':
                 st.heap.havoc(m[1], m[2])
+            elif isinstance(m, tuple) and m[0] == 'heap_at':
+                # havoc the field only at the named references (evaluated at loop entry)
+                arr = st.heap.arr(m[1], m[2])
+                for nm in m[3]:
+                    r = st.lookup(nm)
+                    fv = z3.Const(sym.fresh_name(f'hv_{m[1].name}_{m[2]}'), sym.Heap.field_sort(m[1], m[2]))
+                    arr = z3.Store(arr, r.z, fv)
+                st.heap.arrays[(m[1].name, m[2])] = arr
             elif isinstance(m, tuple) and m[0] == 'ghost':
                 g = st.ghost[m[1]]
                 st.ghost[m[1]] = sym.fresh(g.ty, m[1])
@@ -1300,7 +1337,14 @@ class Interp:
             pass
 
     def check_frame(self, st, spec, name, ghost_before):
-        allowed = {(m[1].name, m[2]) for m in spec.modifies if isinstance(m, tuple) and m[0] == 'heap'}
+        allowed = {(m[1].name, m[2]) for m in spec.modifies if isinstance(m, tuple) and m[0] in ('heap', 'heap_at')}
+        for key, (before, refs) in getattr(self, '_frame_base', {}).items():
+            if key in st.heap.written:
+                r = z3.Int(sym.fresh_name('fr'))
+                after = st.heap.arrays[key]
+                self.oblige(st, f'{name}.frame_{key[0]}_{key[1]}',
+                            z3.ForAll([r], z3.Implies(z3.And(*[r != x for x in refs]),
+                                                      z3.Select(after, r) == z3.Select(before, r))), tag='helper')
         extra = st.heap.written - allowed
         if extra:
             raise Unsupported(f'loop {name} writes heap fields {sorted(extra)} not in modifies')
